@@ -17,7 +17,7 @@ WS_REQ = [' ', '  ', '\t', '\n', '\r\n', ' \n ']
 WS_INNER = [' ', '  ', '\t', '\n', '\r\n']
 COMMENTS = [' /* c */ ', ' -- c\n', ' /*+ h */ ', ' --+ h\n', ' # c\n', '/* c */', '\n-- c\n',
             ' /* a\n b */ ', ' /* a *//* b */', ' -- a\n-- b\n', ' /* a */ -- b\n', ' /*+ h *//* c */ ',
-            ' /* c *//*+ h */ ', ' /* c */ /*+ h */ ', ' -- c\n--+ h\n']
+            ' /* c *//*+ h */ ', ' /* c */ /*+ h */ ', ' -- c\n--+ h\n', ' /*+ a\n b */ ']
 # comments before the first / after the last token of a statement
 EDGE_COMMENTS = ['/* c */ ', '-- c\n', ' /* c */', ' -- c', ' /* a *//* b */', '\n-- c\n', ' /*+ h */', ' # c']
 CASES = ['lower', 'upper', 'title', 'alt']
